@@ -40,7 +40,8 @@ MANIFEST_ENTRY = {
                  'names; conservation oracle over the recorded Process '
                  'arguments; Hypothesis runs in which a stand-in child writes '
                  'its result file, jobs run in a drawn order with / without '
-                 '--delete-existing and the result directory is read back',
+                 '--delete-existing and the result directory is read back; '
+                 'end-to-end runs of tiny real inputs through run_file',
     'level_text': 'Every configuration of a finite box (all job indices) is '
                   'executed against the real click callback and the union of '
                   'launched tasks is checked for conservation of trials, '
@@ -48,9 +49,11 @@ MANIFEST_ENTRY = {
                   'The domain is a small integer lattice with divisibility-'
                   'dependent branches, so exhaustive small-box enumeration '
                   'reaches every remainder pattern.',
-    'level_note': 'Trusts that the arguments passed to multiprocessing.Process '
-                  'are what the child would run (run_file itself is covered by '
-                  'C11/C12); values above the box are sampled, not exhausted.',
+    'level_note': 'The arithmetic sweep trusts that the arguments passed to '
+                  'multiprocessing.Process are what the child would run; a '
+                  'Hypothesis family of small real data directories executes the '
+                  'launched tasks with the library\'s own run_file and reads the '
+                  'result files back. Values above the box are sampled.',
 }
 
 _DIRS = {}
@@ -98,7 +101,90 @@ def in_domain(n_inputs, N, C, trials):
             trials >= max_tasks_per_input(n_inputs, n_tasks))
 
 
+REAL_SPEC = {'ranges': {
+    'label': 'c14', 'code': {'name': 'RotatedPlanar2DCode', 'parameters': [{'L_x': 2, 'L_y': 2}]},
+    'error_model': {'name': 'PauliErrorModel',
+                    'parameters': [{'r_x': 1 / 3, 'r_y': 1 / 3, 'r_z': 1 / 3}]},
+    'decoder': {'name': 'MatchingDecoder', 'parameters': {}}, 'error_rate': [0.1, 0.3]}}
+
+
+def e2e_case(case):
+    """End to end on tiny real inputs: the tasks are really executed (in
+    line, in launch order) by the library's own run_file, and the result
+    directory is read back with the library's own reader."""
+    import panqec.cli as cli
+    from panqec.utils import load_json
+    n_inputs, N, C, trials = (case['n_inputs'], case['n_nodes'], case['n_cores'], case['trials'])
+    assert in_domain(n_inputs, N, C, trials)
+    d = os.path.join(runner.scratch_dir('c14'), f'e2e_p{os.getpid()}')
+    shutil.rmtree(d, ignore_errors=True)
+    os.makedirs(os.path.join(d, 'inputs'))
+    for i in range(n_inputs):
+        spec = json.loads(json.dumps(REAL_SPEC))
+        spec['ranges']['error_rate'] = [0.05 + 0.1 * i, 0.3]
+        with open(os.path.join(d, 'inputs', f'in_{i}.json'), 'w') as f:
+            json.dump(spec, f)
+    tasks = []
+    fails = []
+
+    class Inline:
+        def __init__(self, target=None, args=(), kwargs=None):
+            self.target, self.args, self.kwargs = target, args, dict(kwargs or {})
+            tasks.append(args)
+
+        def start(self):
+            try:
+                with runner.quiet():
+                    self.target(*self.args, **self.kwargs)
+            except Exception as exc:      # noqa
+                fails.append({'relation': 'task_raises',
+                              'detail': f'task {self.args[1:]}: {type(exc).__name__}: {exc}'})
+
+        def join(self):
+            pass
+
+    fake = types.SimpleNamespace(cpu_count=lambda: 10**9, Process=Inline)
+    real = cli.multiprocessing
+    cli.multiprocessing = fake
+    try:
+        for job in case.get('order') or range(1, N + 1):
+            with runner.quiet():
+                cli.run_parallel.callback(data_dir=d, trials=trials, n_nodes=N, job_idx=job,
+                                          n_cores=C, delete_existing=False)
+    finally:
+        cli.multiprocessing = real
+    per_input = {}
+    for inp, res, n_runs in tasks:
+        try:
+            recs = load_json(res)
+        except Exception as exc:      # noqa
+            recs = None
+            fails.append({'relation': 'result_file_of_its_own',
+                          'detail': f'task with {n_runs} trial(s) of {os.path.basename(inp)}: result '
+                                    f'file {os.path.basename(res)} cannot be read '
+                                    f'({type(exc).__name__})'})
+            continue
+        runs = sorted({int(r['results']['n_runs']) for r in recs})
+        if runs != [n_runs] or len(recs) != 2:
+            fails.append({'relation': 'task_ran_its_share',
+                          'detail': f'{os.path.basename(res)}: {len(recs)} records with n_runs {runs}, '
+                                    f'the task was given {n_runs}'})
+        per_input[inp] = per_input.get(inp, 0) + n_runs
+    if not fails:
+        for i in range(n_inputs):
+            got = per_input.get(os.path.abspath(os.path.join(d, 'inputs', f'in_{i}.json')), 0)
+            if got != trials:
+                fails.append({'relation': 'trials_on_disk',
+                              'detail': f'in_{i}.json: {got} trials in the result files, requested {trials}'})
+    shutil.rmtree(d, ignore_errors=True)
+    one = any(t[2] == 1 for t in tasks)
+    return {'fails': fails[:6], 'nontrivial': one, 'labels': ['end-to-end',
+            'has-one-trial-task' if one else 'all-tasks>=2-trials'], 'evals': len(tasks)}
+
+
 def eval_case(case):
+    if case.get('e2e'):
+        return e2e_case(case)
     import panqec.cli as cli
     n_inputs, N, C, trials = (case['n_inputs'], case['n_nodes'],
                               case['n_cores'], case['trials'])
@@ -297,6 +383,18 @@ def file_cases(draw):
     return case
 
 
+@st.composite
+def e2e_cases(draw):
+    n_inputs = draw(st.integers(1, 3))
+    C = draw(st.integers(1, 3))
+    n_min = -(-n_inputs // C)
+    N = draw(st.integers(n_min, max(n_min, 3)))
+    lo = max_tasks_per_input(n_inputs, N * C)
+    trials = draw(st.integers(lo, lo + 4))
+    return {'e2e': True, 'n_inputs': n_inputs, 'n_nodes': N, 'n_cores': C, 'trials': trials,
+            'order': list(draw(st.permutations(list(range(1, N + 1)))))}
+
+
 def run(ctx):
     if ctx.tier == 'quick':
         cases = list(box(6, 5, 8, 120))
@@ -309,4 +407,5 @@ def run(ctx):
     ctx.run_cases(cases, chunk=200)
     ctx.run_hypothesis('large_cases', n_hyp)
     ctx.run_hypothesis('file_cases', 600 if ctx.tier == 'quick' else 20000)
+    ctx.run_hypothesis('e2e_cases', 96 if ctx.tier == 'quick' else 3000)
     shutil.rmtree(runner.scratch_dir('c14'), ignore_errors=True)
